@@ -197,3 +197,117 @@ pub proof fn lemma_last_pos_unique(s: Seq<Rec>, c: Seq<u8>, k1: int, k2: int)
     requires is_last_pos(s, c, k1), is_last_pos(s, c, k2),
     ensures k1 == k2,
 {}
+
+// ---- consequences for the folder contents (C05, second sentence) ------------------------
+// Pure spec: the replay of a log as the fold of `step` over its rows (the reducer of
+// unit `fold` is proved to compute this fold).  `ev_of` is the decoding of the event
+// bytes of a row into what it does to a secret id; uninterpreted here.
+pub ghost enum Ev { Create(Seq<u8>, Seq<u8>), Update(Seq<u8>, Seq<u8>), Delete(Seq<u8>), Other }
+pub uninterp spec fn ev_of(r: Rec) -> Ev;
+pub open spec fn touches(e: Ev, id: Seq<u8>) -> bool {
+    match e { Ev::Create(j, _) => j == id, Ev::Update(j, _) => j == id, Ev::Delete(j) => j == id, Ev::Other => false }
+}
+pub open spec fn step(m: Map<Seq<u8>, Seq<u8>>, e: Ev) -> Map<Seq<u8>, Seq<u8>> {
+    match e { Ev::Create(j, v) => m.insert(j, v), Ev::Update(j, v) => m.insert(j, v), Ev::Delete(j) => m.remove(j), Ev::Other => m }
+}
+pub open spec fn replay(s: Seq<Rec>) -> Map<Seq<u8>, Seq<u8>>
+    decreases s.len(),
+{
+    if s.len() == 0 { Map::empty() } else { step(replay(s.drop_last()), ev_of(s.last())) }
+}
+/// what a row that touches `id` leaves behind for `id`
+pub open spec fn leaves_behind(e: Ev, id: Seq<u8>) -> Option<Seq<u8>> {
+    match e { Ev::Create(_, v) => Some(v), Ev::Update(_, v) => Some(v), _ => None }
+}
+pub open spec fn lookup(m: Map<Seq<u8>, Seq<u8>>, id: Seq<u8>) -> Option<Seq<u8>> {
+    if m.contains_key(id) { Some(m[id]) } else { None }
+}
+/// the LAST row that touches an id decides what the folder holds for it
+pub proof fn lemma_last_touch_decides(s: Seq<Rec>, id: Seq<u8>, k: int)
+    requires
+        0 <= k < s.len(), touches(ev_of(s[k]), id),
+        forall|j: int| k < j < s.len() ==> !touches(ev_of(#[trigger] s[j]), id),
+    ensures lookup(replay(s), id) == leaves_behind(ev_of(s[k]), id),
+    decreases s.len(),
+{
+    let d = s.drop_last();
+    if k < s.len() - 1 {
+        assert(!touches(ev_of(s[s.len() - 1]), id));
+        assert(d[k] == s[k]);
+        assert forall|j: int| k < j < d.len() implies !touches(ev_of(#[trigger] d[j]), id) by { assert(d[j] == s[j]); }
+        lemma_last_touch_decides(d, id, k);
+    }
+}
+/// in a time-sorted log a row that is strictly later than every other row touching
+/// the same id is the last one touching it
+pub proof fn lemma_latest_is_last(s: Seq<Rec>, id: Seq<u8>, k: int)
+    requires
+        time_sorted(s), 0 <= k < s.len(), touches(ev_of(s[k]), id),
+        forall|j: int| 0 <= j < s.len() && j != k && touches(ev_of(#[trigger] s[j]), id) ==> time_lt(s[j].time, s[k].time),
+    ensures forall|j: int| k < j < s.len() ==> !touches(ev_of(#[trigger] s[j]), id),
+{
+    assert forall|j: int| k < j < s.len() implies !touches(ev_of(#[trigger] s[j]), id) by {
+        if touches(ev_of(s[j]), id) {
+            assert(time_le(s[k].time, s[j].time));
+            assert(time_lt(s[j].time, s[k].time));
+        }
+    }
+}
+/// "the latest edit by timestamp wins" / "a secret created on one device appears on
+/// all": whatever log the merged rows `m` are appended to, if `m` is time sorted and
+/// the row `m[k]` creating/updating `id` is strictly later than every other row of
+/// `m` touching `id`, the converged folder holds that value.
+pub proof fn lemma_latest_edit_wins(base: Seq<Rec>, m: Seq<Rec>, id: Seq<u8>, k: int)
+    requires
+        time_sorted(m), 0 <= k < m.len(), touches(ev_of(m[k]), id),
+        forall|j: int| 0 <= j < m.len() && j != k && touches(ev_of(#[trigger] m[j]), id) ==> time_lt(m[j].time, m[k].time),
+    ensures lookup(replay(base + m), id) == leaves_behind(ev_of(m[k]), id),
+{
+    lemma_latest_is_last(m, id, k);
+    let s = base + m;
+    let kk = base.len() + k;
+    assert(s[kk] == m[k]);
+    assert forall|j: int| kk < j < s.len() implies !touches(ev_of(#[trigger] s[j]), id) by {
+        assert(s[j] == m[j - base.len()]);
+    }
+    lemma_last_touch_decides(s, id, kk);
+}
+/// "a deleted secret does not come back unless it was edited after the deletion":
+/// if `m` is time sorted, holds a delete of `id`, and every create/update of `id` in
+/// `m` is strictly earlier than that delete, the converged folder does not hold `id`.
+pub proof fn lemma_deleted_stays_deleted(base: Seq<Rec>, m: Seq<Rec>, id: Seq<u8>, d: int)
+    requires
+        time_sorted(m), 0 <= d < m.len(), ev_of(m[d]) == Ev::Delete(id),
+        forall|j: int| 0 <= j < m.len() && touches(ev_of(#[trigger] m[j]), id) && !(ev_of(m[j]) is Delete) ==> time_lt(m[j].time, m[d].time),
+    ensures !replay(base + m).contains_key(id),
+{
+    // the last row of m touching id exists (d touches it) and is a delete
+    let k = choose|k: int| d <= k < m.len() && touches(ev_of(m[k]), id)
+        && (forall|j: int| k < j < m.len() ==> !touches(ev_of(#[trigger] m[j]), id));
+    assert(exists|k: int| d <= k < m.len() && touches(ev_of(m[k]), id)
+        && (forall|j: int| k < j < m.len() ==> !touches(ev_of(#[trigger] m[j]), id))) by {
+        lemma_last_touch_exists(m, id, d);
+    }
+    if !(ev_of(m[k]) is Delete) {
+        assert(time_lt(m[k].time, m[d].time));
+        if d < k { assert(time_le(m[d].time, m[k].time)); }
+    }
+    let s = base + m;
+    let kk = base.len() + k;
+    assert(s[kk] == m[k]);
+    assert forall|j: int| kk < j < s.len() implies !touches(ev_of(#[trigger] s[j]), id) by {
+        assert(s[j] == m[j - base.len()]);
+    }
+    lemma_last_touch_decides(s, id, kk);
+}
+pub proof fn lemma_last_touch_exists(m: Seq<Rec>, id: Seq<u8>, d: int)
+    requires 0 <= d < m.len(), touches(ev_of(m[d]), id),
+    ensures exists|k: int| d <= k < m.len() && touches(ev_of(m[k]), id)
+        && (forall|j: int| k < j < m.len() ==> !touches(ev_of(#[trigger] m[j]), id)),
+    decreases m.len() - d,
+{
+    if exists|j: int| d < j < m.len() && touches(ev_of(#[trigger] m[j]), id) {
+        let j = choose|j: int| d < j < m.len() && touches(ev_of(#[trigger] m[j]), id);
+        lemma_last_touch_exists(m, id, j);
+    }
+}
